@@ -189,6 +189,19 @@ def run(ctx: Ctx) -> None:
                 directed.append((f"directed:value-wire-into-nested-funcdefn-{where}", json.loads(d.hugr.to_json())))
             except Exception:  # noqa: BLE001
                 pass
+        # constants built from one-shot iterators (the helper constructors take Iterables), loaded in a dataflow graph
+        try:
+            from hugr import tys, val
+            from hugr.build.dfg import Dfg
+            d = Dfg()
+            outs = [d.load(val.Right(iter([tys.Bool]), iter([val.TRUE, val.FALSE]))), d.load(val.Left(iter([val.TRUE]), iter([tys.Qubit]))),
+                    d.load(val.Sum(1, tys.Sum([[tys.Qubit], [tys.Bool, tys.Bool]]), iter([val.FALSE, val.TRUE]))), d.load(val.Some(val.TRUE)),
+                    d.load(val.Tuple(val.Right(iter([]), iter([val.TRUE])), val.TRUE))]
+            d.set_outputs(*outs)
+            directed.append(("directed:constants-from-iterators", json.loads(d.hugr.to_json())))
+        except Exception as e:  # noqa: BLE001
+            ctx.violation({"source": "directed:constants-from-iterators", "clauses": f"exception {type(e).__name__}"}, {"program": "constants from iterators"},
+                          "builders accept the program", repr(e)[:300], clause="no builder call raises", leg="C2S")
         if directed:
             v3, res3 = judge(directed, wd, "directed")
             for n, dd in directed:
